@@ -69,7 +69,25 @@ RENDER_REAL_CACHE = {
     "stub": RENDER_REAL["stub"] + ["SimCache backend (variants sim, sim-ttl)", "virtual clock (cache TTL only)"],
 }
 
+def _c19_parts(tier):
+    from sim.engines import c19
+    q = tier == "quick"
+    return [{"engine": "c19", "params": c19.default_params(tier), "runs": 10_000 if q else 300_000,
+             "per_fork": 1, "wall_s": 90 if q else 1500}]
+
+
 SPECS = {
+    "C19": {
+        "level": "exploration",
+        "parts": _c19_parts,
+        "rule": "case = history of 2-12 ops (renders document/fragment, GETs of emitted and fuzzed paths, other methods) with "
+                "cache faults / RESTART between ops; distinct = program skeleton x op/fault sequence; non-trivial = at least "
+                "one emitted URL was fetched and at least one fault was injected",
+        "real_vs_stub": {"real": RENDER_REAL_CACHE["real"] + ["URL resolver, django.test.Client request/response cycle, cached_script_view"],
+                         "stub": RENDER_REAL_CACHE["stub"] + ["network (none: in-process client)", "second worker process = fork of the pristine zygote image"]},
+        "sim_time_stat": "sim_time_s",
+        "assumptions": ["faults are injected between operations only", "a restarted worker has imported the same component classes"],
+    },
     "C04": {
         "level": "exploration",
         "parts": _c04_parts,
@@ -170,6 +188,14 @@ MANIFEST_META = {
                       "multiset/order predicted from the model's instance pre-order; markers must not survive; any cache state.",
         "level_note": "Trusted: model instance pre-order = first appearance; regex scanner for script/style/link tags of generated pages.",
     },
+    "C19": {
+        "engine": "render-sim", "design_ref": "DESIGN.md 4/C19",
+        "technique": _DST.format(what="histories of renders and HTTP requests against the in-process endpoint",
+                                 faults="media-cache clear / evict / TTL expiry (virtual clock) and worker RESTART with durable cache between ops; request fuzzing"),
+        "level_text": "Seeded exploration of histories; per-render oracle (emitted URL served right after the render) plus global "
+                      "oracle (never 5xx, never another class's code, non-GET 405).",
+        "level_note": "Trusted: django.test.Client as the HTTP layer; SimCache as a faithful Django cache backend.",
+    },
     "C05": {
         "engine": "render-sim", "design_ref": "DESIGN.md 4/C05",
         "technique": _DST.format(what="histories of provider/consumer page renders in one process",
@@ -231,6 +257,5 @@ NOT_APPLICABLE = {
     "C16": "not claimed yet (build in progress)",
     "C17": "what the finder exposes is a pure function of (directory tree, settings, lookup path); read-only single-shot scan, "
            "nothing carried between calls, insensitive to listing order",
-    "C19": "not claimed yet (build in progress)",
     "C20": "get_component_files is a pure function of (directory tree, settings); read-only single-shot scan",
 }
